@@ -1,6 +1,8 @@
 from abc import ABCMeta, abstractmethod
 from fnmatch import fnmatch
 
+import six
+
 
 class TapeCassette(object):
     """
@@ -153,6 +155,9 @@ class TapeCassette(object):
             return False
 
         if isinstance(match_value, str):
+            # Shell style patterns only apply to string values, anything else cannot match
+            if not isinstance(recorded_value, six.string_types):
+                return False
             return fnmatch(recorded_value, match_value)
 
         return recorded_value == match_value
@@ -163,16 +168,20 @@ class TapeCassette(object):
         Check if this is an operator metadata filter and its value is in range
         """
         result = False
-        if metadata_value['operator'] == '=':
-            result = recorded_value == metadata_value['value']
-        if metadata_value['operator'] == '<':
-            result = recorded_value < metadata_value['value']
-        if metadata_value['operator'] == '<=':
-            result = recorded_value <= metadata_value['value']
-        if metadata_value['operator'] == '>':
-            result = recorded_value > metadata_value['value']
-        if metadata_value['operator'] == '>=':
-            result = recorded_value >= metadata_value['value']
+        try:
+            if metadata_value['operator'] == '=':
+                result = recorded_value == metadata_value['value']
+            if metadata_value['operator'] == '<':
+                result = recorded_value < metadata_value['value']
+            if metadata_value['operator'] == '<=':
+                result = recorded_value <= metadata_value['value']
+            if metadata_value['operator'] == '>':
+                result = recorded_value > metadata_value['value']
+            if metadata_value['operator'] == '>=':
+                result = recorded_value >= metadata_value['value']
+        except TypeError:
+            # Missing or incomparable recorded value (e.g. None < 5) never matches an operator filter
+            return False
 
         return result
 
